@@ -25,7 +25,9 @@ HELPERS_MOD = "_has_traits_helpers.py"
 CHANGE_HANDLER = "observer_change_handler"     # the maintainer of named / filtered links
 UNOBS = "UNOBSERVABLE_VALUES"
 EXC_ONLY = {"NotifierNotFound": ".notifierNotFound"}
-EVENT_ATTRS = {"old": "evOld", "new": "evNew"}
+EVENT_ATTRS = {"old": "evOld", "new": "evNew", "removed": "evRemoved", "added": "evAdded"}
+ITEM_HANDLER = "_observer_change_handler"      # the maintainers of list / dict / set items, one per module
+ITEM_MODS = [("list", "_list_item_observer.py"), ("dict", "_dict_item_observer.py"), ("set", "_set_item_observer.py")]
 OBSERVE_MOD = "traits.observation._observe"
 FLD = {"object": ".object", "graph": ".graph", "handler": ".handler", "target": ".target",
        "dispatcher": ".dispatcher", "remove": ".remove", "_owns_processed": ".ownsProcessed",
@@ -163,6 +165,9 @@ class Fn:
             if na:
                 ctor, names = NODE_CALLS[na[1]]
                 return "(.%s %s %s)" % (ctor, E(na[0]), " ".join(self.bind(n, [(x, True, None) for x in names], opt=False)))
+            if (not n.args and not n.keywords and isinstance(n.func, ast.Attribute) and n.func.attr == "values"
+                    and self.kind == "function"):
+                return "(.valuesOf %s)" % E(n.func.value)
             raise Unknown("call %s" % short(n))
         raise Unknown("expression %s" % short(n))
 
@@ -373,11 +378,23 @@ def emit(traits_dir):
     fns = [Fn(defs[f], "function", fn_sigs, init_sig, names) for f in FNS]
     fns.append(Fn(defs2[APPLY], "function", fn_sigs, None, []))
     fns.append(Fn(defs3[CHANGE_HANDLER], "function", {FNS[0]: fn_sigs[FNS[0]]}, None, []))
+    renamed = {}
+    for kind, mod in ITEM_MODS:
+        tree4, defs4 = toplevel(os.path.join(obs, mod), [FNS[0], ITEM_HANDLER])
+        if not isinstance(defs4.get(ITEM_HANDLER), ast.FunctionDef):
+            raise Unknown("%s: function %s not found" % (mod, ITEM_HANDLER))
+        imps4 = [n for n in tree4.body if isinstance(n, ast.ImportFrom) and n.module == OBSERVE_MOD and n.level == 0]
+        if len(imps4) != 1 or [(a.name, a.asname) for a in imps4[0].names] != [(FNS[0], None)]:
+            raise Unknown("%s does not import exactly %s from %s" % (mod, FNS[0], OBSERVE_MOD))
+        f = Fn(defs4[ITEM_HANDLER], "function", {FNS[0]: fn_sigs[FNS[0]]}, None, [])
+        renamed[id(f)] = "%s%s" % (kind, ITEM_HANDLER)       # e.g. list_observer_change_handler
+        fns.append(f)
     frows = []
     for f in fns:
         b = f.block(f.fn.body)          # before comment(): the body allocates the slots of the locals
+        name = renamed.get(id(f), f.fn.name)
         frows.append('    -- %s: %s\n    ("%s", { nparams := %d, defaults := %s, body :=\n      %s })' % (
-            f.fn.name, f.comment(), f.fn.name, len(f.params), f.defaults(), b))
+            name, f.comment(), name, len(f.params), f.defaults(), b))
     init = Fn(inits[0], "init", {}, None, [])
     irows = init.init_rows()
     mrows = []
